@@ -43,13 +43,13 @@ def grid(tier, seed):
               ('nrst', 'i16', -4, 'i32', -8), ('tpi', 'u8', 0, 'u16', -4), ('ninf', 'i32', 2, 'i32', 0),
               # the largest well-formed narrowing of each promoted width (k = digits is ill-formed since the repair of
               # C09.wrapped_power_is_int_min: static_assert(0 < divisor) in default_scale)
-              ('nrst', 'i32', -30, 'i32', 0), ('tpi', 'i8', -30, 'i8', 0), ('ninf', 'i64', -62, 'i64', 0), ('nrst', 'i16', -30, 'i16', 0),
+              ('nrst', 'i8', -7, 'i8', 0), ('tpi', 'u8', -8, 'u8', 0), ('ninf', 'i16', -15, 'i16', 0), ('nrst', 'i8', -20, 'i8', 0), ('tpi', 'i16', -16, 'i32', 0), ('ninf', 'u8', -12, 'u16', -2), ('nrst', 'i32', -30, 'i32', 0), ('tpi', 'i8', -30, 'i8', 0), ('ninf', 'i64', -62, 'i64', 0), ('nrst', 'i16', -30, 'i16', 0),
               ('tpi', 'u32', -31, 'u32', 0)]
     k = 4 if tier == 'quick' else 40
-    while len(wfixed) < 26 + k:
+    while len(wfixed) < 32 + k:
         t = rnd.choice(list(TAGS)); s = rnd.choice(reps); d = rnd.choice(reps)
         es = rnd.choice([-28, -20, -16, -12, -8, -4, -2]); ed = es + rnd.choice([1, 2, 3, 5, 8, 12])
-        if ed - es >= min(int(s[1:]), 31) - 1:
+        if ed - es >= (31 if int(s[1:]) <= 32 else 63) - 1:   # 2^k must fit the promoted representation
             continue
         c = (t, s, es, d, ed)
         if c not in wfixed:
